@@ -84,4 +84,61 @@ mod native {
         });
         assert!(asked > 10_000, "only {} calls made", asked);
     }
+
+    // Session::timeout_change_conn_state is NOT under contract (fn-pointer closures chosen by a `match`; Verus rejects them), so that
+    // it hands change_conn_state a rate vector listing EVERY peer and the candidate just computed is read off the code, not proved.
+    // BOUNDED stand-in for C14's "at every moment at most ten peers unchoked plus at most one optimistic unchoke" across the real
+    // timer-driven rotation: every multiset of up to MAXN peers over six kinds of peer whose initial state respects the bound,
+    // three consecutive rotations each (the third is a round-0 rotation that picks an optimistic peer).
+    fn count_slots(s: &Session) -> (usize, usize) {
+        let regular = s.peers.values().filter(|p| !p.am_choked && !p.optimistic_unchoke).count();
+        let optimistic = s.peers.values().filter(|p| p.optimistic_unchoke).count();
+        (regular, optimistic)
+    }
+    #[test]
+    fn native_c14_rotation_caller_small_tables() {
+        let deep = std::env::var("RDEST_VERIF_TIER").map(|t| t == "thorough").unwrap_or(false);
+        let maxn = if deep { 14usize } else { 12 };
+        let rt = tokio::runtime::Builder::new_current_thread().enable_all().build().unwrap();
+        let tables = rt.block_on(async {
+            let mut tables = 0usize;
+            // kinds: 0 unchoked+interested+rates, 1 unchoked+interested+NO rates (fresh), 2 choked+interested+high rates,
+            //        3 choked+not interested+rates, 4 unchoked+not interested+rates, 5 optimistic (unchoked, interested, rates)
+            let mut c = [0usize; 6];
+            loop {
+                let n: usize = c.iter().sum();
+                let regular0 = c[0] + c[1] + c[4];
+                if n >= 1 && n <= maxn && regular0 <= 10 && c[5] <= 1 && (n >= 10 || c[2] + c[1] > 0) {
+                    let mut s = Session::new(torrent(2), [1u8; PEER_ID_SIZE]);
+                    let mut k = 0u32;
+                    for kind in 0..6 { for _ in 0..c[kind] {
+                        let mut p = Peer::new(None, 2, tokio::spawn(async {}));
+                        p.am_choked = !(kind == 0 || kind == 1 || kind == 4 || kind == 5);
+                        p.interested = kind == 0 || kind == 1 || kind == 2 || kind == 5;
+                        p.optimistic_unchoke = kind == 5;
+                        if kind != 1 { let r = if kind == 2 { 1000 + k } else { 10 + k }; p.download_rate = Some(r); p.uploaded_rate = Some(r); }
+                        s.peers.insert(format!("10.0.{}.{}:1", kind, k), p);
+                        k += 1;
+                    } }
+                    for round in 0..3 {
+                        s.timeout_change_conn_state().await.expect("rotation failed");
+                        let (regular, optimistic) = count_slots(&s);
+                        assert!(regular <= 10 && optimistic <= 1,
+                            "after rotation {} of a table with kinds {:?}: {} regular upload slots, {} optimistic unchokes", round + 1, c, regular, optimistic);
+                    }
+                    tables += 1;
+                }
+                // next multiset (odometer with per-kind cap)
+                let mut i = 0;
+                loop {
+                    if i == 6 { return tables; }
+                    c[i] += 1;
+                    if c[i] <= (if i == 5 { 1 } else { maxn }) && c.iter().sum::<usize>() <= maxn { break; }
+                    c[i] = 0;
+                    i += 1;
+                }
+            }
+        });
+        assert!(tables > 5000, "only {} tables", tables);
+    }
 }
